@@ -84,6 +84,20 @@ def twin_mismatches(d):
     P = collections.namedtuple('P', ['x', 'y'])
     subjects += [('namedtuple class', P), ('namedtuple instance', P(1, 2)), ('structseq class', _time.struct_time),
                  ('structseq instance', _time.gmtime(0)), ('plain tuple', (1, 2)), ('int', 3)]
+    # every struct-sequence type of the standard library that can be reached, with an instance where one is at hand
+    # (os.stat_result has unnamed visible fields)
+    import os as _os
+    import sys as _sys
+    extra = [('os.stat_result', _os.stat_result), ('os.stat()', _os.stat('.')), ('sys.float_info', _sys.float_info),
+             ('sys.version_info', _sys.version_info), ('sys.flags', _sys.flags), ('os.terminal_size', _os.terminal_size),
+             ('os.terminal_size()', _os.terminal_size((3, 4))), ('os.times()', _os.times()), ('type(sys.int_info)', type(_sys.int_info)),
+             ('sys.hash_info', _sys.hash_info), ('sys.thread_info', _sys.thread_info)]
+    try:
+        import resource as _resource
+        extra += [('resource.struct_rusage', _resource.struct_rusage), ('resource.getrusage()', _resource.getrusage(_resource.RUSAGE_SELF))]
+    except ImportError:
+        pass
+    subjects += extra
     names = ['is_namedtuple', 'is_namedtuple_instance', 'is_namedtuple_class', 'is_structseq',
              'is_structseq_instance', 'is_structseq_class', 'namedtuple_fields', 'structseq_fields']
     out = []
